@@ -182,10 +182,9 @@ def main():
     common.setup_path()
     # property-specific replay kinds live next to the properties
     kind = payload["kind"]
-    if kind not in KINDS:
-        import importlib
-        importlib.import_module("vf.replay_kinds")
-    res = KINDS[kind](payload)
+    import vf.replay as R          # this file may be running as __main__: use the package copy
+    import vf.replay_kinds         # noqa: registers the property-specific kinds in R.KINDS
+    res = R.KINDS[kind](payload)
     res["kind"] = kind
     print(json.dumps(res, default=str))
     return 0
